@@ -52,7 +52,7 @@ func runC31(h *hx.H) {
 	if h.Thorough() {
 		styles = 5
 	}
-	check := func(idx int64, desc string, base map[string]string, names []string, target string, nontrivial bool, variants []string, tag string) {
+	check := func(idx int64, desc string, base map[string]string, names []string, target string, nontrivial bool, variants []string, tagf func(printer.Formatting) string) {
 		for style, text := range variants {
 			// the reference is the compile of this very text
 			src1 := map[string]string{}
@@ -78,6 +78,12 @@ func runC31(h *hx.H) {
 			}
 			for _, ps := range presets {
 				h.State(1)
+				tg := func() string {
+					if tagf == nil {
+						return ""
+					}
+					return tagf(ps.f)
+				}
 				fail := func(sig, format string, args ...any) {
 					h.Violate(sig, hx.CaseID(idx), fmt.Sprintf("%s, variant %d, preset %s: ", desc, style, ps.name)+fmt.Sprintf(format, args...), map[string]any{"source": text})
 				}
@@ -93,11 +99,11 @@ func runC31(h *hx.H) {
 				f2, ok := formatText(f1, ps.f)
 				h.Trans(2)
 				if !ok {
-					fail("format-output-does-not-parse"+tag, "the formatted text is rejected by the experimental parser:\n%s", short(f1, 1500))
+					fail("format-output-does-not-parse"+tg(), "the formatted text is rejected by the experimental parser:\n%s", short(f1, 1500))
 					continue
 				}
 				if f1 != f2 {
-					fail("format-not-idempotent:"+tagOr(tag, firstLineDiff(f1, f2)), "formatting the formatted text changes it again; %s", diffWindowStr(f1, f2))
+					fail("format-not-idempotent:"+tagOr(tg(), firstLineDiff(f1, f2)), "formatting the formatted text changes it again; %s", diffWindowStr(f1, f2))
 					continue
 				}
 				src2 := map[string]string{}
@@ -108,7 +114,7 @@ func runC31(h *hx.H) {
 				res := compile(src2, protocompile.SourceInfoNone, names...)
 				h.Trans(1)
 				if res.err != nil {
-					fail("format-output-does-not-compile:"+tagOr(tag, errClass(first1(res.errs, res.err))), "the formatted text does not compile: %s\n%s", first1(res.errs, res.err), short(f1, 1500))
+					fail("format-output-does-not-compile:"+tagOr(tg(), errClass(first1(res.errs, res.err))), "the formatted text does not compile: %s\n%s", first1(res.errs, res.err), short(f1, 1500))
 					continue
 				}
 				var got *descriptorpb.FileDescriptorProto
@@ -132,7 +138,7 @@ func runC31(h *hx.H) {
 					fail("format-reorders-imports", "the formatted file lists its imports in a different order (dependency list %v, originally %v)", got.Dependency, refMain.Dependency)
 					continue
 				}
-				fail("format-changes-descriptor:"+tagOr(tag, diffField(a.ProtoReflect(), b.ProtoReflect(), "")), "the formatted text compiles to a different descriptor; formatted text:\n%s", short(f1, 1800))
+				fail("format-changes-descriptor:"+tagOr(tg(), diffField(a.ProtoReflect(), b.ProtoReflect(), "")), "the formatted text compiles to a different descriptor; formatted text:\n%s", short(f1, 1800))
 			}
 		}
 	}
@@ -143,20 +149,46 @@ func runC31(h *hx.H) {
 		for style := 0; style < styles; style++ {
 			variants = append(variants, decorate(base["main.proto"], style))
 		}
-		check(idx, wsDesc(ws), base, ws.Names(), "main.proto", ndev > 0, variants, "")
+		check(idx, wsDesc(ws), base, ws.Names(), "main.proto", ndev > 0, variants, nil)
 	})
 	// trivia in the token slots of a self-contained, compilable skeleton
 	dev, win := 2, 2
 	if h.Thorough() {
 		dev, win = 2, 6
 	}
-	forEachLayout(formatSkeleton, formatTrivia, dev, win, func(text string, slots map[int]string) {
+	forEachLayout(formatSkeleton, formatTrivia, dev, win, func(text string, slots map[int]string, build func(map[int]string) string) {
 		idx, run := h.NextN()
 		if !run {
 			return
 		}
 		h.Eval(1)
-		check(idx, "layout skeleton", map[string]string{"main.proto": strings.ReplaceAll(formatSkeletonText, "\x00", "")}, []string{"main.proto"}, "main.proto", true, []string{text}, layoutTag(formatSkeleton, slots))
+		// The class of a failing layout is the class of its slots; when one of two slots fails
+		// on its own (a layout that is enumerated by itself), the pair is put in that class.
+		cp := map[int]string{}
+		for k, v := range slots {
+			cp[k] = v
+		}
+		tagf := func(preset printer.Formatting) string {
+			if len(cp) > 1 {
+				var ks []int
+				for k := range cp {
+					ks = append(ks, k)
+				}
+				sort.Ints(ks)
+				for _, k := range ks {
+					one := map[int]string{k: cp[k]}
+					f1, ok := formatText(build(one), preset)
+					if !ok {
+						continue
+					}
+					if f2, ok := formatText(f1, preset); !ok || f2 != f1 {
+						return layoutTag(formatSkeleton, one)
+					}
+				}
+			}
+			return layoutTag(formatSkeleton, cp)
+		}
+		check(idx, "layout skeleton", map[string]string{"main.proto": strings.ReplaceAll(formatSkeletonText, "\x00", "")}, []string{"main.proto"}, "main.proto", true, []string{text}, tagf)
 	})
 	// the repository's own testdata
 	corpus := loadCorpus()
@@ -172,7 +204,7 @@ func runC31(h *hx.H) {
 		}
 		h.Eval(1)
 		text := corpus[n]
-		check(idx, "testdata "+n, corpus, []string{n}, n, true, []string{text, strings.ReplaceAll(text, "\n", "\r\n"), strings.ReplaceAll(text, "\t", "  ")}, "")
+		check(idx, "testdata "+n, corpus, []string{n}, n, true, []string{text, strings.ReplaceAll(text, "\n", "\r\n"), strings.ReplaceAll(text, "\t", "  ")}, nil)
 	}
 }
 
@@ -202,6 +234,45 @@ func layoutTag(skel []string, slots map[int]string) string {
 			}
 		}
 	}
+	// a slot inside a message literal (braces or angles that follow `=` or `:`, or nest in one)
+	inLiteral := false
+	depth := 0
+	var stack []bool
+	for i, t := range skel {
+		if _, ok := slots[i]; ok && depth > 0 {
+			inLiteral = true
+		}
+		switch t {
+		case "{", "<":
+			agg := depth > 0 || i > 0 && (skel[i-1] == "=" || skel[i-1] == ":")
+			if t == "<" && !agg {
+				continue // map<...>
+			}
+			stack = append(stack, agg)
+			if agg {
+				depth++
+			}
+		case "}", ">":
+			if t == ">" && (len(stack) == 0 || !stack[len(stack)-1]) {
+				continue
+			}
+			if len(stack) > 0 {
+				if stack[len(stack)-1] {
+					depth--
+				}
+				stack = stack[:len(stack)-1]
+			}
+		}
+	}
+	if inLiteral {
+		if line {
+			return ":line-comment-inside-a-message-literal"
+		}
+		if inside || between {
+			return ":block-comment-inside-a-message-literal"
+		}
+		return ":blank-lines-inside-a-message-literal"
+	}
 	switch {
 	case inside && line:
 		return ":line-comment-inside-a-declaration"
@@ -218,7 +289,8 @@ message M { optional int32 a = 1 [ deprecated = true , json_name = "A" ] ; repea
 reserved 10 to 12 , 15 ; reserved "zz" ; extensions 100 to 199 ; enum E { option allow_alias = true ; A = 0 ; B = 0 [ deprecated = true ] ; } message N { } }
 extend M { optional int32 x = 100 ; } service S { rpc R ( M ) returns ( M ) { option deprecated = true ; } rpc Q ( stream M ) returns ( stream M ) ; }
 message Lit { optional int32 a = 1 ; optional string b = 2 ; optional Lit c = 3 ; repeated int32 e = 5 ; }
-extend google . protobuf . FileOptions { optional Lit fo = 50001 ; } option ( fo ) = { a : 1 b : "s" c { a : 2 } e : [ 1 , 2 ] } ; option ( fo ) . c . b = "t" ;`)
+extend google . protobuf . FileOptions { optional Lit fo = 50001 ; } option ( fo ) = { a : 1 b : "s" c { a : 2 } e : [ 1 , 2 ] } ; option ( fo ) . c . b = "t" ;
+extend google . protobuf . FileOptions { optional Lit fo2 = 50002 ; } option ( fo2 ) = { a : 1 c < a : 2 b : "u" c < a : 4 > > e : [ 3 ] } ;`)
 
 var formatSkeletonText = strings.Join(formatSkeleton, " ") + "\n"
 
@@ -226,7 +298,7 @@ var formatTrivia = []string{"", "\n", "\n\n", "\t", " // c\n", " /* c */ ", " /*
 
 // forEachLayout: see the text harness; every text obtained by putting a non-default trivia value
 // into at most maxDev slots of the skeleton (second slot within `window` of the first).
-func forEachLayout(skel []string, trivia []string, maxDev, window int, f func(s string, slots map[int]string)) {
+func forEachLayout(skel []string, trivia []string, maxDev, window int, f func(s string, slots map[int]string, build func(map[int]string) string)) {
 	n := len(skel)
 	build := func(slots map[int]string) string {
 		var b strings.Builder
@@ -248,7 +320,7 @@ func forEachLayout(skel []string, trivia []string, maxDev, window int, f func(s 
 	slots := map[int]string{}
 	var rec func(from, left int)
 	rec = func(from, left int) {
-		f(build(slots), slots)
+		f(build(slots), slots, build)
 		if left == 0 {
 			return
 		}
